@@ -121,16 +121,19 @@ def typedProgram (p : Program) : Bool := typedStmts p
 structure SCtx where
   inLoop : Bool := false
   inFunc : Bool := false
+  /-- the parser also accepts `break` inside a switch (which the AST no longer shows): with this flag
+      `break` is not constrained (used for the run-time check of parser output; see known finding break-in-switch) -/
+  brkAnywhere : Bool := false
 
 /- placement rules: break / continue only inside a loop, return only inside a function, function
    definitions only at top level (the Batch converter relies on them: it keeps construct stacks) -/
 mutual
 def Stmt.placed (c : SCtx) : Stmt → Bool
-  | .funcDef _ _ _ _ body => !c.inFunc && !c.inLoop && placedStmts { inLoop := false, inFunc := true } body
+  | .funcDef _ _ _ _ body => !c.inFunc && !c.inLoop && placedStmts { c with inLoop := false, inFunc := true } body
   | .ret _ => c.inFunc
   | .ifS _ body elifs els => placedStmts c body && placedElifs c elifs && placedStmts c els
   | .forS init _ incr body => placedOpt c init && placedOpt { c with inLoop := true } incr && placedStmts { c with inLoop := true } body
-  | .brk => c.inLoop
+  | .brk => c.inLoop || c.brkAnywhere
   | .cont => c.inLoop
   | _ => true
 
